@@ -11,7 +11,7 @@
    as_cmd_seq (its numerics are C12's theorems), the basic-shape outlines, and the size of the
    drift when a 1e-9 snap does fire. *)
 From Coq Require Import ZArith Reals Lra List Bool Ascii String.
-From Pico Require Import Num PyStr G_geom G_meta G_types Walk PathSem E3_walk E3_rewrites E3_shorthand E3_forms E3_chain.
+From Pico Require Import Num PyStr G_geom G_meta G_types Walk PathSem E3_walk E3_rewrites E3_shorthand E3_forms E3_chain E3_snap G_transform E1_affine.
 Import ListNotations.
 Local Open Scope char_scope.
 
@@ -67,6 +67,19 @@ Theorem C09_as_cmd_seq (MO : MathOps ROps) (p : pathR) :
   interpR (as_cmd_seq MO p) = interpR p /\ Forall (fun c => In (fst c) S3) (as_cmd_seq MO p).
 Proof. exact (as_cmd_seq_preserves MO p). Qed.
 
+(* when the 1e-9 snap does fire, the moved segment - absolute or relative - ends exactly on the subpath start *)
+Theorem C09_snapped_segment_ends_on_start (cur tgt : Pt) c (a : list R) :
+  In c drawing_letters -> num_args c = Some (List.length a) ->
+  _next_pos ROps cur (fst (_move_endpoint ROps cur c a tgt)) (snd (_move_endpoint ROps cur c a tgt)) = tgt.
+Proof. exact (move_endpoint_lands cur tgt c a). Qed.
+
+Theorem C09_rewrite_snap_lands (rw : rw_t) (s cur : Pt) c (a : list R) pv :
+  In (fst (rw cur c a)) drawing_letters -> num_args (fst (rw cur c a)) = Some (List.length (snd (rw cur c a))) ->
+  Point_eqb ROps (_next_pos ROps cur (fst (rw cur c a)) (snd (rw cur c a))) s = false ->
+  Point_almost_equals ROps (_next_pos ROps cur (fst (rw cur c a)) (snd (rw cur c a))) s eps9 = true ->
+  _next_pos ROps cur (fst (f_rewrite rw s cur c a pv)) (snd (f_rewrite rw s cur c a pv)) = s.
+Proof. exact (rewrite_snap_lands rw s cur c a pv). Qed.
+
 (* rounding to n digits moves no coordinate by more than half a unit in the last place *)
 Theorem C09_rounding (nd : Z) (p : pathR) :
   Forall2 (fun c c' => fst c = fst c' /\
@@ -83,5 +96,5 @@ Proof. repeat constructor; cbn; tauto. Qed.
 (* one traversal for the axioms of the whole property file *)
 Definition C09_all := (C09_walk_tracks_current_point, C09_explicit_lines, C09_expand_shorthand, C09_absolute,
   C09_absolute_moveto, C09_relative, C09_move, C09_no_lowercase_after_absolute, C09_no_HV_after_explicit_lines,
-  C09_no_ST_after_expand_shorthand, C09_as_cmd_seq, C09_rounding).
+  C09_no_ST_after_expand_shorthand, C09_as_cmd_seq, C09_snapped_segment_ends_on_start, C09_rewrite_snap_lands, C09_rounding).
 Print Assumptions C09_all.
